@@ -16,6 +16,7 @@ CONSTANTS
  DevLeaseCheckSkipped = FALSE
  DevFetchAclOnRequestName = FALSE
  DevStaleOwnedOnSessionReplace = FALSE
+ DevLeaseErrMisindexed = FALSE
 INIT Init
 NEXT Next
 INVARIANTS EmitSched C24_NoEffect C24_AuthError C24_NoLeak
